@@ -148,28 +148,48 @@ def builtin_table(repo, cg):
     init = repo.lookup_method(yp, '__init__')
     if init is None:
         raise AnalysisError('anchor vanished: YP.__init__')
+    from .symex import SymEx, SelfV, Const, PathState, Sym
     out = []
+
+    class Collect(SymEx):
+        def apply(self, e, f, args, kw, st, func):
+            if isinstance(f, tuple) and f[0] == 'bound' and f[1] is reg:
+                st.effects.append(('register', e, args, kw))
+                return [(st, Const(None))]
+            return SymEx.apply(self, e, f, args, kw, st, func)
     for f in cg.reachable([init], with_refs=False, include_nested=False):
-        if f.cls is not yp:
+        if f.cls is not yp or f is reg:
             continue
-        for n, callees in cg.calls.get(f, ()):
-            if reg in callees and is_self_attr(n.func, 'register_function'):
-                name = arg_for_param(n, reg, 'name')
-                fn = arg_for_param(n, reg, 'func')
-                ar = arg_for_param(n, reg, 'arity')
-                if not (isinstance(name, ast.Constant) and isinstance(name.value, str)):
-                    raise AnalysisError('builtin registered under a non-constant name at %s' % f.loc(n))
-                arity = None
-                if ar is not None:
-                    try:
-                        arity = ast.literal_eval(ar)
-                    except Exception:
-                        raise AnalysisError('builtin registered with a non-constant arity at %s' % f.loc(n))
-                targets = cg.resolve_callable(f, fn)
-                func = targets[0] if targets else None
-                if arity is None and func is not None:
-                    ps = func.params[1:] if func.is_method else func.params
-                    arity = len(ps) if not func.node.args.vararg else None
-                key = '%s_n' % name.value if (isinstance(arity, int) and arity < 0) else '%s_%s' % (name.value, arity)
-                out.append(dict(name=name.value, arity=arity, key=key, func=func, node=n, expr=norm(fn), where=f.loc(n)))
+        if not any(reg in callees and is_self_attr(n.func, 'register_function') for n, callees in cg.calls.get(f, ())):
+            continue
+        # the set-up function is evaluated by the checker: its register_function calls with their argument values
+        sx = Collect(repo, inline=lambda g: False, opaque=lambda n: False, max_depth=2)
+        sx.max_steps = 20000
+        try:
+            paths = sx.run(f, [Sym(p) for p in f.params[1:]], PathState())
+        except AnalysisError as e:
+            raise AnalysisError('cannot evaluate the builtin registrations of %s: %s' % (f.qname, e))
+        if len(paths) != 1:
+            raise AnalysisError('the builtin registrations of %s depend on run-time values (%d paths)' % (f.qname, len(paths)))
+        for eff in paths[0][0].effects:
+            if not (isinstance(eff, tuple) and eff and eff[0] == 'register'):
+                continue
+            _, n, args, kw = eff
+            ps = reg.params[1:]
+            vals = dict(zip(ps, args))
+            vals.update(kw)
+            name, fn, ar = vals.get('name'), vals.get('func'), vals.get('arity')
+            if not (isinstance(name, Const) and isinstance(name.v, str)):
+                raise AnalysisError('builtin registered under a non-constant name at %s' % f.loc(n))
+            arity = None
+            if ar is not None:
+                if not (isinstance(ar, Const) and (ar.v is None or isinstance(ar.v, int))):
+                    raise AnalysisError('builtin registered with a non-constant arity at %s' % f.loc(n))
+                arity = ar.v
+            func = fn[1] if isinstance(fn, tuple) and fn and fn[0] in ('bound', 'func') else None
+            if arity is None and func is not None:
+                fps = func.params[1:] if func.is_method else func.params
+                arity = len(fps) if not func.node.args.vararg else None
+            key = '%s_n' % name.v if (isinstance(arity, int) and arity < 0) else '%s_%s' % (name.v, arity)
+            out.append(dict(name=name.v, arity=arity, key=key, func=func, node=n, expr=func.name if func is not None else repr(fn), where=f.loc(n)))
     return out
